@@ -65,6 +65,7 @@ type scenario struct {
 	ViaVerb  bool
 	DateFlag bool
 	How      int  // how the logger becomes colored: 0 SetColorMode(true), 1 option of New, 2 option of New on a JSON parent, 3 WithColorMode method on a logfmt parent
+	FlagsHow int  // which public way sets the flags (vlib.SetFlagsVia)
 	PreLog   bool // a colored record at the same (then still unregistered) level value is emitted BEFORE the custom levels are registered
 	Recolour int  // 0: no; otherwise SetLevelColors(severity, ...) with one of a few fg/bg pairs before logging
 }
@@ -125,7 +126,7 @@ func run(t vlib.TB, test string, sc scenario, thruAttrs slog.Attrs, args []any) 
 		flags |= slog.Ldate
 		layout = "2006-01-02T15:04:05.000000Z07:00"
 	}
-	slog.SetFlags(flags)
+	vlib.SetFlagsVia(sc.FlagsHow, flags, slog.Lcaller|slog.Ldate|slog.Ltime|slog.LattrsR)
 	if sc.Recolour > 0 {
 		pairs := [][2]color.Color{{color.FgRed, color.BgBoldOrBright}, {color.FgLightGreen, color.NoColor}, {color.FgWhite, color.BgUnderline}, {color.FgDefault, color.BgDim}}
 		pr := pairs[(sc.Recolour-1)%len(pairs)]
@@ -472,6 +473,7 @@ func genScenario(t *rapid.T) (scenario, slog.Attrs, []any) {
 	sc.DateFlag = rapid.IntRange(0, 3).Draw(t, "dateflag") == 0
 	sc.Recolour = rapid.SampledFrom([]int{0, 0, 0, 1, 2, 3, 4}).Draw(t, "recolour")
 	sc.How = rapid.SampledFrom([]int{0, 0, 1, 2, 3}).Draw(t, "howColoredIsSet")
+	sc.FlagsHow = rapid.SampledFrom([]int{0, 0, 1, 2, 3}).Draw(t, "flagsHow")
 	sc.PreLog = rapid.IntRange(0, 3).Draw(t, "preLogWhileUnregistered") == 0
 	sc.TS = vlib.GenTime().Draw(t, "ts")
 	sc.ViaVerb = rapid.IntRange(0, 3).Draw(t, "viaVerb") == 0
